@@ -129,6 +129,7 @@ func newShared(big ...bool) (*shared, error) {
 	s.vals = []types.Value{
 		types.NewSet(types.Long(1), types.True, types.NewSet(types.Long(1)), types.String("a")),
 		types.NewRecord(types.RecordMap{"b": types.NewSet(types.Long(-1)), "a": types.NewRecord(types.RecordMap{"x": types.Long(1)})}),
+		types.NewRecord(types.RecordMap{}), types.NewSet(), types.NewSet([]types.Value{}...), types.Record{}, // empty, by every constructor
 		bigSet(70), types.NewRecord(bigRecord(70)), // sizes beyond the thresholds at which a lazily built index or memo would pay off
 	}
 	var sc schema.Schema
@@ -206,6 +207,39 @@ var ops = []op{
 			sb.WriteString(string(v.MarshalCedar()) + string(b) + fmt.Sprint(v.Equal(v), v.String()))
 		}
 		set := s.vals[0].(types.Set)
+		// what the accessors hand out is the caller's: fill / overwrite every copy obtained
+		for _, v := range s.vals {
+			switch x := v.(type) {
+			case types.Record:
+				if m := x.Map(); m != nil {
+					m["added-by-caller"] = types.True
+					for k := range m {
+						m[k] = types.Long(-7)
+					}
+				}
+			case types.Set:
+				sl := x.Slice()
+				for k := range sl {
+					sl[k] = types.Long(-7)
+				}
+				_ = append(sl, types.True)
+			}
+		}
+		if m := s.req.Context.Map(); m != nil {
+			m["added-by-caller"] = types.True
+		}
+		for _, e := range s.ents {
+			if m := e.Attributes.Map(); m != nil {
+				m["added-by-caller"] = types.True
+			}
+			if m := e.Tags.Map(); m != nil {
+				m["added-by-caller"] = types.True
+			}
+			ps := e.Parents.Slice()
+			for k := range ps {
+				ps[k] = types.NewEntityUID("X", "x")
+			}
+		}
 		return sb.String() + fmt.Sprint(set.Contains(types.Long(1)), set.Len(), len(set.Slice()))
 	}},
 	{"validate", func(s *shared, eg types.EntityGetter) string {
